@@ -82,6 +82,46 @@ func (g *specGen) gen(depth int, inRec bool, edgeOK bool) (builder.SelectorSpec,
 	}
 }
 
+// wrap nests the spec under n further clauses ("at any nesting depth"): one
+// kind throughout, or the kinds in rotation.
+func (g *specGen) wrap(s builder.SelectorSpec, d string, n int, kind int) (builder.SelectorSpec, string) {
+	names := []string{"all", "fields", "idx", "rng", "~", "union", "R5"}
+	if kind == 6 && n > 3 {
+		n = 3 // nested recursions multiply the traversal; deep nesting is exercised with the other kinds
+	}
+	if kind == 5 && n > 8 {
+		n = 8 // ipld-prime's ExploreUnion.Interests costs 2^nesting
+	}
+	for i := 0; i < n; i++ {
+		k := kind
+		if kind >= len(names) {
+			k = i % (len(names) - 2)
+		}
+		switch k {
+		case 0:
+			s = g.ssb.ExploreAll(s)
+		case 1:
+			in := s
+			s = g.ssb.ExploreFields(func(b builder.ExploreFieldsSpecBuilder) { b.Insert("a", in) })
+		case 2:
+			s = g.ssb.ExploreIndex(0, s)
+		case 3:
+			s = g.ssb.ExploreRange(0, 2, s)
+		case 4:
+			s = g.ssb.ExploreInterpretAs("unixfs", s)
+		case 5:
+			s = g.ssb.ExploreUnion(g.ssb.Matcher(), s)
+		case 6:
+			s = g.ssb.ExploreRecursive(selector.RecursionLimitDepth(5), g.ssb.ExploreUnion(g.ssb.ExploreAll(g.ssb.ExploreRecursiveEdge()), s))
+		}
+	}
+	kn := "mixed"
+	if kind < len(names) {
+		kn = names[kind]
+	}
+	return s, fmt.Sprintf("%sx%d[%s]", kn, n, d)
+}
+
 // walkSpec is the independent verdict: does the spec contain, anywhere, a
 // recursion that is unbounded or limited to a depth above maxDepth?
 func walkSpec(n datamodel.Node, maxDepth int64) bool {
@@ -157,6 +197,10 @@ func (s *c08) Build(w *World) {
 		var desc string
 		for try := 0; try < 5; try++ {
 			sp, dd := g.gen(0, false, false)
+			if t.Chance(350) {
+				n := []int{1, 3, 8, 15, 16, 17, 31, 32, 33, 64, 100, 150}[t.Draw(12)]
+				sp, dd = g.wrap(sp, dd, n, t.Draw(8))
+			}
 			nd := sp.Node()
 			if _, err := selector.ParseSelector(nd); err == nil {
 				spec, desc = nd, dd
